@@ -31,6 +31,12 @@ def main():
         if a.repo:
             kw = {"repo": a.repo, "tag": a.tag}
         rep = mod.run(a.tier, **kw)
+        if a.tier == "thorough" and not a.repo and not os.environ.get("VERIF_SELFVAL"):
+            try:
+                import thorough
+                thorough.extras(prop, rep)
+            except Exception as e:
+                rep.notes.append("thorough extras failed: %r" % (e,))
         return rep.finish(seed, write=not a.no_evidence)
     except Exception:
         traceback.print_exc()
